@@ -19,7 +19,7 @@ EXPLANATION = ("Over a SYMBOLIC input, every lexer function is run from a well-f
                "recorded) is a separate contract.  EXACT POSITIONS: the real Scanner.scan on texts made of ANY number of blank lines, ANY indentation, an optional preceding statement "
                "with a `;` comment of ANY text, then a statement: every token's Position is (number of line ends before it, offset in its line) of its first character in the "
                "scanned file, and for a bad size suffix / bad index register / unterminated string the ScannerException carries the position of the offending character "
-               "(7 forms; scanner loops cut at invariants that pin the line bookkeeping to its closed form at the current position).  The parser/codegen hop is proved on the real parse_decl / _code_gen / emit for a token list made of an ARBITRARY prefix "
+               "(8 forms; scanner loops cut at invariants that pin the line bookkeeping to its closed form at the current position).  The parser/codegen hop is proved on the real parse_decl / _code_gen / emit for a token list made of an ARBITRARY prefix "
                "(any length, any tokens, any lines) followed by one statement with an undefined symbol (5 opcode operand shapes, .db/.dw/.dl/.pointer): the NodeError raised "
                "is attributed to a token on the statement's own line of the statement's own file.  File names of included files, the quoted line text and the "
                "message format are the bounded part.")
@@ -110,13 +110,14 @@ def shape_statement_after_prefix(name):
 # tokens: (type, piece index where the token starts) or (type, None) for tokens whose position is not constrained (COMMENT, EOF)
 POSITIONED = {
     "blank lines, indentation, `lda #0x12`": (["NL", "IN", "lda", "SP", "#", "0x12"], [("OPCODE", 2), ("SHARP", 4), ("NUMBER", 5), ("EOF", None)], None),
-    "`nop ; any comment`, blank lines, indentation, `lda 0x10,x`": (["nop", "IN", ";", ";c", "\n", "NL", "IN", "lda", "SP", "0x10", ",", "x"],
-                                                                    [("OPCODE_NAKED", 0), ("COMMENT", None), ("OPCODE", 7), ("NUMBER", 9), ("ADDRESSING_MODE_INDEX", 11), ("EOF", None)], None),
+    "`nop ; any comment`, blank lines, indentation, `lda 0x10,x`": (["nop", ";", ";c", "\n", "NL", "IN", "lda", " 0x10,x"],
+                                                                    [("OPCODE_NAKED", 0), ("COMMENT", None), ("OPCODE", 6), ("NUMBER", None), ("ADDRESSING_MODE_INDEX", None), ("EOF", None)], None),
     "blank lines, indentation, `.db 0x01`, blank lines, `label:`": (["NL", "IN", ".", "db", "SP", "0x01", "\n", "NL", "IN", "name", ":"],
                                                                     [("KEYWORD", 3), ("NUMBER", 5), ("LABEL", 9), ("EOF", None)], None),
     "bad size suffix after blank lines and indentation": (["NL", "IN", "lda", ".", "q", "SP", "0x10"], [], 4),
     "size suffix missing at the line end": (["NL", "IN", "lda", ".", "\n", "nop"], [], 4),
-    "bad index register after a commented line": (["nop", ";", ";c", "\n", "NL", "IN", "lda", "SP", "0x10", ",", "q"], [], 10),
+    "bad index register after a commented line": (["nop", ";", ";c", "\n", "IN", "lda 0x10,", "q"], [], 6),
+    "unterminated string ending in a backslash, quotes on a later line": (["IN", ".", "text", "SP", "'C:\\", "\n", "'z'"], [], 4),
     "unterminated string after blank lines": (["NL", "IN", ".", "text", "SP", "'abc", "\n", "nop"], [], 5),
 }
 
